@@ -312,6 +312,24 @@ func c05PacketModifiers(res *engine.Result, in []byte) {
 			sink(q.SetAdaptationField(a))
 		}
 	})
+	// receiver and argument both arbitrary: the packet's own field (same array, and an identical copy),
+	// and the field of the same bytes with the two length bytes behind the flags swapped
+	mod("Packet.SetAdaptationField(arbitrary source)", func(p *packet.Packet, _ *packet.AdaptationField) {
+		cp := base
+		if a, _ := cp.AdaptationField(); a != nil {
+			sink(p.SetAdaptationField(a))
+		}
+		if a, _ := p.AdaptationField(); a != nil {
+			sink(p.SetAdaptationField(a))
+		}
+		sw := base
+		sw[6], sw[7] = sw[7], sw[6]
+		sw[3] |= 0x20
+		if a, _ := sw.AdaptationField(); a != nil {
+			q := base
+			sink(q.SetAdaptationField(a))
+		}
+	})
 	mod("AdaptationField.indicator-setters", func(_ *packet.Packet, af *packet.AdaptationField) {
 		sink(af.SetDiscontinuity(true), af.SetRandomAccess(false), af.SetElementaryStreamPriority(true))
 	})
